@@ -32,6 +32,14 @@ DropAll(S, xs, i) == IF i > Len(xs) THEN S ELSE DropAll(Drop(S, xs[i]), xs, i + 
 
 ArrayOps == {"unary_mut", "into_builder", "try_unary_mut"}
 
+(* An empty buffer has no memory: its pointer is a dangling constant, so the  *)
+(* logged "same address" says nothing (two different empty regions coincide). *)
+(* For an empty handle the specification itself decides whether `^=` works in *)
+(* place or on a copy; the strong counts, the pool and the release counters   *)
+(* logged after the call still tell the two apart wherever they differ.       *)
+EmptyHandle(x) == st.hd[x].len = 0
+XorInPlaceTaken(ev) == IF EmptyHandle(ev.x) THEN BufferInPlaceOK(st, ev.x) ELSE ev.same
+
 (* state after the call, given what the call reported (ok / same / res)      *)
 After(ev) ==
   CASE ev.op = "new"     -> New(st, ev.r, ev.kind, ev.bits, ev.mem, ev.size, ev.x)
@@ -46,7 +54,7 @@ After(ev) ==
     [] ev.op = "into_vec"     -> IF ev.ok THEN Unclaim(BufferMutate(st, ev.x), st.hd[ev.x].refs[1]) ELSE st
     [] ev.op \in ArrayOps     -> IF ev.ok THEN ArrayMutate(st, ev.x, ev.op = "try_unary_mut", ev.size) ELSE ArrayDecline(st, ev.x, ev.nr, ev.nsize)
     [] ev.op = "try_unary_mut_err" -> IF ev.ok THEN Drop(st, ev.x) ELSE ArrayDecline(st, ev.x, ev.nr, ev.nsize)
-    [] ev.op = "xor"     -> IF ev.same THEN XorInPlace(st, ev.x) ELSE XorCopy(st, ev.x, ev.nr, ev.size)
+    [] ev.op = "xor"     -> IF XorInPlaceTaken(ev) THEN XorInPlace(st, ev.x) ELSE XorCopy(st, ev.x, ev.nr, ev.size)
     [] ev.op = "shrink"  -> ShrinkToFit(st, ev.x)
     [] ev.op = "claim"   -> Claim(st, ev.x)
     [] ev.op = "export"  -> Export(st, ev.x, ev.e, ev.nr)
@@ -83,11 +91,11 @@ Enabled(ev) ==
 (* in-place rules: what the call reported is allowed in the state before it  *)
 RuleOK(ev) ==
   CASE ev.op = "into_mutable" -> /\ ev.ok = BufferInPlaceOK(st, ev.x)      \* documented both ways
-                                 /\ ev.same                                \* Ok: same memory; Err: the same buffer back
-    [] ev.op = "into_vec"     -> (ev.ok => BufferInPlaceOK(st, ev.x)) /\ ev.same
+                                 /\ (ev.same \/ EmptyHandle(ev.x))        \* Ok: same memory; Err: the same buffer back
+    [] ev.op = "into_vec"     -> (ev.ok => BufferInPlaceOK(st, ev.x)) /\ (ev.same \/ EmptyHandle(ev.x))
     [] ev.op \in ArrayOps     -> (ev.ok => ArrayInPlaceOK(st, ev.x)) /\ (~ev.ok => ev.same)
     [] ev.op = "try_unary_mut_err" -> (ev.ok => ArrayInPlaceOK(st, ev.x))
-    [] ev.op = "xor"          -> (ev.same => BufferInPlaceOK(st, ev.x))
+    [] ev.op = "xor"          -> (ev.same /\ ~EmptyHandle(ev.x)) => BufferInPlaceOK(st, ev.x)
     [] ev.op = "shrink"       -> ev.size = ShrinkToFit(st, ev.x).rg[st.hd[ev.x].refs[1]].size    \* capacity afterwards
     [] ev.op = "import"       -> ev.srel = 1          \* the schema struct is released exactly once when dropped
     [] ev.op = "stream_next"  -> /\ ev.got = CanStreamNext(st, ev.s)      \* one batch, then end of stream
